@@ -564,6 +564,8 @@ def check_C03(res):
     q = res.tier == "quick"
     server_stage(res, "header", 7 if q else 1, ["C03"])
     server_stage(res, "total", 4 if q else 100, ["C03"])
+    server_stage(res, "edns", 2 if q else 60, ["C03"])      # BADVERS / FORMERR responses built around an OPT
+    server_stage(res, "size", 1 if q else 20, ["C03"])      # responses emptied after the question was written (TC)
     return "all 16 header bits (every 7th flag word in quick, all 65536 in thorough) x QDCOUNT 0/1/2 x mixed-case QNAMEs x both transports; plus the total-request family"
 
 
